@@ -19,6 +19,55 @@ def _k1():
     return cfg
 
 
+def _k6():
+    """Lease pressure: an evictor that still fails after evicting (its lease
+    does not fit before the reboot) and a victim of the same shape."""
+    day = 24 * 3600
+    cfg = cellcfg.k5()
+    cfg['monitors'] = [cellmon.mon_c07]
+    cfg['idgroups'] = {}
+    cfg['allow_nocycle'] = False
+    cfg['servers'] = {
+        's0': {'parent': 'rack:0', 'age': 19 * day + 12 * 3600,
+               'variants': [{'cap': [10, 10, 10]}]},
+        's1': {'parent': 'rack:1', 'age': 0,
+               'variants': [{'cap': [2, 2, 2]}]},
+    }
+    cfg['templates'] = {
+        'l1': {'prio': 50, 'demand': [3, 3, 3], 'aff': 'a', 'lease': day},
+        'lh': {'prio': 90, 'demand': [3, 3, 3], 'aff': 'a', 'lease': day},
+        'big': {'prio': 70, 'demand': [8, 8, 8], 'aff': 'b'},
+    }
+    cfg['events'] = cellcfg.ev(
+        ('add', 'l1'), ('add', 'lh'), ('add', 'big'), ('rm', 0),
+        ('prio', 0, 100), ('tick', day // 2), ('tick', day), ('noop',),
+    )
+    return cfg
+
+
+def _k7():
+    """Two allocations in one partition: an instance inside its reservation is
+    ahead in the queue although its priority is lowest."""
+    cfg = cellcfg.k1()
+    cfg['monitors'] = [cellmon.mon_c07]
+    cfg['idgroups'] = {}
+    cfg['allow_nocycle'] = False
+    cfg['allocs']['r'] = {'partition': '_default', 'variants': [
+        {'reserved': [6, 6, 6], 'rank': 100}]}
+    cfg['templates'] = {
+        'rl': {'prio': 1, 'demand': [6, 6, 6], 'aff': 'r', 'alloc': 'r'},
+        'am': {'prio': 50, 'demand': [6, 3, 6], 'aff': 'm', 'alloc': 'a'},
+        'ah': {'prio': 100, 'demand': [10, 4, 10], 'aff': 'h', 'alloc': 'a'},
+        'as': {'prio': 50, 'demand': [3, 3, 3], 'aff': 'm', 'alloc': 'a'},
+    }
+    cfg['events'] = cellcfg.ev(
+        ('add', 'rl'), ('add', 'am'), ('add', 'ah'), ('add', 'as'),
+        ('rm', 0), ('prio', 1, 100), ('down', 's0'), ('up', 's0'),
+        ('noop',),
+    )
+    return cfg
+
+
 def _k3():
     cfg = cellcfg.k3({'rack': 1})
     cfg['monitors'] = [cellmon.mon_c07]
@@ -34,8 +83,10 @@ def _k3():
 
 def configs(ctx):
     if ctx.quick:
-        return [('K1', _k1(), 4, 1), ('K3', _k3(), 5, 0)]
-    return [('K1', _k1(), 6, 1), ('K3', _k3(), 7, 0)]
+        return [('K1', _k1(), 4, 1), ('K3', _k3(), 4, 0), ('K6', _k6(), 5, 0),
+                ('K7', _k7(), 5, 0)]
+    return [('K1', _k1(), 6, 1), ('K3', _k3(), 7, 0), ('K6', _k6(), 8, 0),
+            ('K7', _k7(), 7, 0)]
 
 
 RULE = ('BFS over histories producing capacity pressure; per cycle the queue '
